@@ -78,6 +78,9 @@ def gen(tier, seed):
     add("copy", "c12-copy", "copy_is_independent(kind, u)", ["pre: 0 <= kind <= 6 and 0 <= u <= 4"],
         "copy() of a species / reaction / network / grid / graph / system / script is an equal object that shares nothing mutable with the original: editing the copy at the top level and in nested parts leaves the original's dictionary unchanged",
         "kind: int, u: int", viol="copy() shares state with the original (or is not equal to it)")
+    add("dict_after_edit", "c12-dict-after-edit", "dict_after_edit(kind, u)", ["pre: 0 <= kind <= 6 and 0 <= u <= 4"],
+        "serialisation follows the CURRENT content: a species / reaction / network / grid / graph / system / script that was serialised, read back and copied once and is then edited serialises like a freshly built object given the same edit, "
+        "and the dictionary read back describes the edited object", "kind: int, u: int", viol="the dictionary of an object edited after its first serialisation still describes (part of) the object as it was before the edit")
     add("units_arg", "c12-units-argument", "units_argument_not_aliased(kind)", ["pre: 0 <= kind <= 6"],
         "the units system handed to a constructor is copied: editing the caller's UnitsSystem afterwards changes nothing in the model (7 classes)", "kind: int",
         viol="a model object keeps a reference to the caller's UnitsSystem")
